@@ -6,6 +6,7 @@ CHECK = {
     "entries": [
         {"fn": P + "vC20_mpsc", "replay": "model-only"},
         {"fn": P + "vC20_mpmc", "replay": "model-only"},
+        {"fn": "github.com/tochemey/goakt/v4/eventstream.vC20_membership", "opts": {"switch_on": "sync", "unwind": 6, "unwind_mode": "assert", "map_dedup": True}},
         {"fn": "github.com/tochemey/goakt/v4/eventstream.vC20_stream", "replay": "model-only", "opts": {"switch_on": "sync"}},
     ],
     "opts": {"rounds": 3, "unwind": 4, "unwind_mode": "assume", "switch_on": "all"},
